@@ -18,7 +18,8 @@ for d in sorted(glob.glob("/verif/seeded/C*")):
     rows.append((m["id"], m["property"], m["summary"], m["needs"], confirmed, "; ".join(caught), first, m.get("note", "")))
 L = ["# Seeded changes", "",
      "Each directory holds one change to aurora-opensource/au written by a sub-agent that was given only the text of one property and a scratch git worktree "
-     "(nothing from /verif), plus — in the second round — the one-line summaries of the earlier changes for that property so as to produce something different.",
+     "(nothing from /verif), plus — from the second round on — the one-line summaries of the earlier changes for that property so as to produce something different. "
+     "Suffixes: A/B round 1, C/D round 2, E/F round 3, G/H round 4.",
      "`patch.diff` is the change, `demo*.cc`/`.sh` the author's demonstration (passes on the unmodified tree, fails with the change), `NOTES.md` the author's notes, "
      "`meta.json` what it breaks and what it needs in order to manifest, `confirm.log` my own confirmation (tools/confirm_seeded.sh: scratch worktree, demo passes clean / fails patched, "
      "the whole existing suite builds and passes with the patch), `result.json` what the checks said (tools/run_seeded.py: patch applied to a scratch worktree, checks pointed at it with VF_REPO).",
@@ -29,7 +30,7 @@ for r in rows:
 n = len(rows)
 rep = sum(1 for r in rows if "**reported**" in r[5])
 L += ["", f"{n} changes, {rep} reported by the check of the property they break (or the sibling check named in the note).", "",
-      "History: after the first run of round 1, 25 of 40 were reported; the 15 misses (C02-A, C07-A, C07-B, C08-B, C09-A, C09-B, C10-B, C11-B, C13-B, C15-A, C15-B, C18-B, C19-B, C20-A, C20-B) and the 6 of round 2 "
-      "(C01-C, C01-D, C02-D, C06-C, C08-C, C09-D) led to the strengthening recorded in DESIGN.md section 9.5; C03-C and C08-D are reported by the sibling checks C05 and C17 (see notes)."]
+      "History (which changes were silent when first run, and what was added because of them) is in DESIGN.md section 9.5: 15 of 40 in round 1, 13 of 40 in round 2, 12 of 40 in round 3; "
+      "the verdicts in this table are those of the checks as they are now."]
 open("/verif/seeded/README.md", "w").write("\n".join(L) + "\n")
 print(f"{n} rows, {rep} reported")
